@@ -82,6 +82,22 @@ def make_case(spec, i):
               else {"op": "append", "h": w, "path": [], "args": [2]})
         steps.append(st)
         ms.apply_op(st)
+    dropped = []
+    if mode == "backend" and r.random() < 0.35:
+        # the program drops every object that touched the buffer before the context exits (only idle or no
+        # objects remain): the buffered writes must reach the file all the same
+        w = r.choice([h for h in range(k) if roles[h] == "w"])
+        st = ({"op": "setitem", "h": w, "path": [], "args": ["kdrop", [7]]} if info.kind == "dict"
+              else {"op": "append", "h": w, "path": [], "args": [["kdrop"]]})
+        steps.append(st)
+        ms.apply_op(st)
+        touched = sorted({s_["h"] for s_ in steps if "op" in s_})
+        for h in touched:
+            steps.append({"drop": h})
+            for hh in ms.handles.values():
+                if hh.root == h:
+                    hh.attached = False
+            dropped.append(h)
     if mode == "backend":
         steps.append({"exit": 1})
         ms.exit()
@@ -92,7 +108,12 @@ def make_case(spec, i):
             steps.append({"exit": "obj", "h": h})
             ms.exit(h)
     for h in range(k):
-        steps.append({"op": "call", "h": h, "path": [], "args": []})
+        if h not in dropped:
+            steps.append({"op": "call", "h": h, "path": [], "args": []})
+    if dropped:
+        steps.append({"new_root": k, "res": 0})
+        ms.add_root(k, 0)
+        steps.append({"op": "call", "h": k, "path": [], "args": []})
     return {"cls": info.name, "cfg": spec["cfg"], "res": [init], "roots": roots, "steps": steps,
             "stratum": spec["stratum"], "roles": roles, "mode": mode,
             "oracle": {"results": True, "resource_strict": True, "resource_each_step": False,
